@@ -21,6 +21,7 @@ type sccp struct {
 	execBlk  map[int]bool
 	val      map[ssa.Value]constant.Value // known constants
 	unknown  map[ssa.Value]bool
+	visiting map[ssa.Value]bool // phis under evaluation (loop-carried values are unknown)
 }
 
 func (s *sccp) eval(v ssa.Value) (constant.Value, bool) {
@@ -66,6 +67,14 @@ func (s *sccp) eval(v ssa.Value) (constant.Value, bool) {
 		}
 		return nil, false
 	case *ssa.Phi:
+		if s.visiting == nil {
+			s.visiting = map[ssa.Value]bool{}
+		}
+		if s.visiting[x] {
+			return nil, false
+		}
+		s.visiting[x] = true
+		defer delete(s.visiting, x)
 		var res constant.Value
 		n := 0
 		for i, e := range x.Edges {
